@@ -1,18 +1,16 @@
 #!/bin/sh
 # usage: tools/mutant.sh <patch.diff> <property> [scale]
-# applies the patch to /repo, runs the property's quick check, reverts the patch. Never commits anything.
+# applies the patch to /repo, runs the property's quick check, reverts the patch. Never commits anything;
+# replay and evidence files of such a run go to /verif/build/mutant-*, not to the committed directories.
 PATCH=$1; PROP=$2; SCALE=${3:-0.3}
 cd /verif || exit 2
 git -C /repo diff --quiet || { echo "/repo has uncommitted changes"; exit 2; }
 git -C /repo apply "$PATCH" || { echo "patch does not apply"; exit 2; }
-mkdir -p /verif/build/mutant-replays
-VERIF_SCALE=$SCALE ./check "$PROP" quick > /verif/build/mutant.out 2> /verif/build/mutant.err
+mkdir -p /verif/build/mutant-replays /verif/build/mutant-evidence
+VERIF_REPLAY_DIR=/verif/build/mutant-replays VERIF_EVIDENCE_DIR=/verif/build/mutant-evidence VERIF_SCALE=$SCALE ./check "$PROP" quick > /verif/build/mutant.out 2> /verif/build/mutant.err
 RC=$?
 git -C /repo checkout -- .
-grep '^VIOLATION\|^KNOWN' /verif/build/mutant.out | sort | uniq -c | head -5
 grep '^violation:' /verif/build/mutant.err | cut -c1-250 | head -8
 tail -1 /verif/build/mutant.err | cut -c1-250
 echo "exit=$RC"
-# replay files produced for a mutant are not findings about the unchanged tree
-git -C /verif status --porcelain replays | awk '{print $2}' | while read f; do mv "/verif/$f" /verif/build/mutant-replays/ 2>/dev/null; done
 exit 0
